@@ -63,6 +63,7 @@ func New(ds datastore.Batching,
 	selfPeer peer.ID) (*Channels, error) {
 
 	c := &Channels{notifier: notifier}
+	verifRegisterEnv(c, env)
 	c.blockIndexCache = newBlockIndexCache()
 	c.progressCache = newProgressCache()
 	channelMigrations, err := migrations.GetChannelStateMigrations(selfPeer)
@@ -147,6 +148,7 @@ func (c *Channels) CreateNew(selfPeer peer.ID, tid datatransfer.TransferID, base
 		log.Errorw("failed to create new tracking channel for data-transfer", "channelID", chid, "err", err)
 		return datatransfer.ChannelID{}, err
 	}
+	verifPoint(c, selfPeer.String(), "create", chid, 0)
 	log.Debugw("created tracking channel for data-transfer", "channelID", chid)
 	return chid, nil
 }
@@ -394,22 +396,28 @@ func (c *Channels) fireProgressEvent(chid datatransfer.ChannelID, evt datatransf
 
 	// Fire the progress event if there is progress
 	if progress {
+		verifPoint(c, "", "send", chid, progressEvt, delta)
 		if err := c.stateMachines.Send(chid, progressEvt, delta); err != nil {
 			return err
 		}
+		verifPoint(c, "", "sent", chid, progressEvt)
 	}
 
 	// Fire the regular event
+	verifPoint(c, "", "send", chid, evt, index)
 	if err := c.stateMachines.Send(chid, evt, index); err != nil {
 		return err
 	}
+	verifPoint(c, "", "sent", chid, evt)
 
 	// fire the pause event if we past our data limit
 	if pause {
 		// pause. Data limits only exist on the responder, so we always pause the responder
+		verifPoint(c, "", "send", chid, datatransfer.DataLimitExceeded)
 		if err := c.stateMachines.Send(chid, datatransfer.DataLimitExceeded); err != nil {
 			return err
 		}
+		verifPoint(c, "", "sent", chid, datatransfer.DataLimitExceeded)
 		// return a pause error so the transfer knows to pause
 		return datatransfer.ErrPause
 	}
@@ -450,6 +458,8 @@ func (c *Channels) send(chid datatransfer.ChannelID, code datatransfer.EventCode
 		return err
 	}
 	log.Debugw("send data transfer event", "name", datatransfer.Events[code], "transfer ID", chid.ID, "args", args)
+	verifPoint(c, "", "send", chid, code, args...)
+	defer verifPoint(c, "", "sent", chid, code)
 	return c.stateMachines.Send(chid, code, args...)
 }
 
